@@ -327,8 +327,8 @@ Theorem C01_statements_in_symbol_order syms stmts names prog :
   names = names_of syms /\
   Forall2 (fun s st => exists n eq i k0 e,
              sname s = Some n /\ In eq stmts /\
-             stmt_of_equation (fun x => index_of x names) eq = Some (n, st) /\
-             st = SAssign i k0 e /\ index_of n names = Some i)
+             stmt_of_equation (row_of names) eq = Some (n, st) /\
+             st = SAssign i k0 e /\ row_of names n = Some i)
           (filter emits syms) prog.
 Proof. exact (program_order syms stmts names prog). Qed.
 Print Assumptions C01_statements_in_symbol_order.
@@ -473,6 +473,16 @@ Theorem C01_function_shadows_variable_refuted :
     names_of syms = ["Y"; "X"] /\ program_of_script script = None.
 Proof. exact function_shadows_variable_refuted. Qed.
 Print Assumptions C01_function_shadows_variable_refuted.
+
+(* NEW: `Y = _x + 1` — a series name beginning with an underscore: self.__x is name-mangled inside the class body *)
+Theorem C01_underscore_name_mangled_refuted :
+  exists script syms, parse_model_nocheck script = POk syms /\
+    In (mkSymbol (Some "Y") TEndogenous (Some (IInt 0%Z)) (Some (IInt 0%Z)) (Some "Y[t] = _x[t] + 1")
+                 (Some "self._Y[t] = self.__x[t] + 1")) syms /\
+    names_of syms = ["Y"; "_x"] /\ mangled "_x" = true /\ mangled "_" = false /\ mangled "__x__" = false /\
+    program_of_script script = None.
+Proof. exact underscore_name_mangled_refuted. Qed.
+Print Assumptions C01_underscore_name_mangled_refuted.
 
 (* `Y[a=b] = X` — a match spanning the first `=`: terms and placeholders no longer correspond *)
 Theorem C01_match_spanning_equals_refuted :
